@@ -83,6 +83,84 @@ fn probe(args: &[String]) {
     driver::cleanup_scratch();
 }
 
+/// C01 runs supervised: "returns normally" also means no abort (stack overflow) and no call that never
+/// returns, and neither can be caught inside the process that suffers it.  The child journals every
+/// history before each engine call; when it dies by a signal or its watchdog reports a hang (exit 3) the
+/// parent turns the journals of the histories that were in flight into replay files, confirms each in a
+/// further child (with a time limit) and reports the one that kills / hangs the process again.
+fn supervise_c01(args: &[String]) -> ! {
+    use std::process::Command;
+    use std::time::{Duration, Instant};
+    let exe = std::env::current_exe().expect("current exe");
+    let jdir = verif::driver::scratch_root().join("c01-journal");
+    let _ = std::fs::remove_dir_all(&jdir);
+    let status = Command::new(&exe).args(&args[1..]).env("VERIF_CHILD", "1").env("VERIF_JOURNAL_DIR", &jdir).status().expect("spawn child");
+    let code = status.code();
+    if let Some(c @ (0 | 1 | 2)) = code {
+        verif::driver::cleanup_scratch();
+        std::process::exit(c);
+    }
+    let how = match code {
+        Some(3) => "an engine call did not return within the watchdog limit".to_string(),
+        Some(c) => format!("the process exited with status {c}"),
+        None => format!("the process was killed by a signal ({status})"),
+    };
+    let replaying = args.iter().any(|a| a == "--replay");
+    if replaying {
+        println!("  failure kind=process-died-or-hung : replaying this input, {how}");
+        println!("VIOLATION property=C01 replay={}", args.last().unwrap());
+        verif::driver::cleanup_scratch();
+        std::process::exit(1);
+    }
+    // in-flight histories
+    let _ = std::fs::create_dir_all("/verif/replays");
+    let mut found = None;
+    let mut files: Vec<_> = std::fs::read_dir(&jdir).map(|d| d.filter_map(|e| e.ok()).map(|e| e.path()).collect()).unwrap_or_default();
+    files.sort();
+    for (i, f) in files.iter().enumerate() {
+        let (opts, events) = match verif::gen::journal::read(f) {
+            Some(x) if !x.1.is_empty() => x,
+            _ => continue,
+        };
+        let body = serde_json::json!({"property": "C01", "kind": "process-died-or-hung", "message": how, "case": {"opts": opts, "events": events,
+            "readable": events.iter().map(verif::gen::ev_to_string).collect::<Vec<_>>()}});
+        let path = format!("/verif/replays/C01-abort-{}-{i}.json", std::process::id());
+        std::fs::write(&path, serde_json::to_string_pretty(&body).unwrap()).expect("write replay");
+        // confirm in a further child with a time limit
+        let mut child = Command::new(&exe).args(["C01", "--replay", &path]).env("VERIF_CHILD", "1").stdout(std::process::Stdio::null()).spawn().expect("spawn replay child");
+        let t0 = Instant::now();
+        let confirmed = loop {
+            match child.try_wait() {
+                Ok(Some(st)) => break !matches!(st.code(), Some(0)),
+                Ok(None) if t0.elapsed() > Duration::from_secs(60) => {
+                    let _ = child.kill();
+                    let _ = child.wait();
+                    break true;
+                }
+                Ok(None) => std::thread::sleep(Duration::from_millis(100)),
+                Err(_) => break false,
+            }
+        };
+        if confirmed {
+            found = Some(path);
+            break;
+        }
+        let _ = std::fs::remove_file(&path);
+    }
+    verif::driver::cleanup_scratch();
+    match found {
+        Some(path) => {
+            println!("  failure kind=process-died-or-hung : {how}; the history in flight reproduces it");
+            println!("VIOLATION property=C01 replay={path}");
+            std::process::exit(1);
+        }
+        None => {
+            println!("INCONCLUSIVE {how}, but no journalled history reproduced it");
+            std::process::exit(2);
+        }
+    }
+}
+
 fn main() {
     let args: Vec<String> = std::env::args().collect();
     if args.len() < 2 {
@@ -91,6 +169,9 @@ fn main() {
     if args[1] == "probe" {
         probe(&args[2..]);
         return;
+    }
+    if args[1] == "C01" && std::env::var("VERIF_CHILD").is_err() {
+        supervise_c01(&args);
     }
     let id = args[1].clone();
     let mut tier = match std::env::var("VERIF_TIER").as_deref() {
